@@ -26,7 +26,7 @@ type params struct {
 }
 
 func init() {
-	report.Register("C20", report.Check{Level: "model_checking", QuickBudget: 120 * time.Second, ThoroughBudget: 30 * time.Minute, Run: run})
+	report.Register("C20", report.Check{Level: "model_checking", QuickBudget: 240 * time.Second, ThoroughBudget: 30 * time.Minute, Run: run})
 	explore.Register("C20.seq", func(p string) explore.Harness {
 		var pr params
 		json.Unmarshal([]byte(p), &pr)
